@@ -62,7 +62,8 @@ def c02(tier, seed):
                        "constants": consts(6, 3), "invariants": INV, "timeout": 900})
     worlds = [world("cl_single_fn", 0, 0),
               world("cl_multi_fn", 1, 0, fraction=0.2 if quick else 0.1, fill="0xFF"),       # std::mutex: a lock held across a callback = hang
-              world("cl_spin_cb", 2, 1, fraction=0.1 if quick else 0.05, fill="0x00")]
+              world("cl_spin_cb", 2, 1, fraction=0.1 if quick else 0.05, fill="0x00"),
+              world("cl_tracked_fn", 3, 0, fraction=0.3 if quick else 0.15, fill="0xAB")]    # tracked mutex / atomic: relock = hang at once, use after destruction recorded
     return {"interp": "harness/cl_interp.cpp", "trace_module": "TraceCL", "models": models, "worlds": worlds,
             "defects": [{"module": "CLImpl", "constants": consts(3, 2), "invariants": INV, "defect": "stale"}],
             "nontrivial_key": "nested",
